@@ -701,6 +701,15 @@ def make_replay(rep):
             return (d['status'] == 'PANIC' and 'overflow' in d['result']), 'scenario `%s` -> %s' % (line, payload[0])
         line = to_native(w)
         c['native_scenario'] = line
+        if c.get('kind') == 'hang':
+            # a process that never finishes: run the scenario natively under a short time limit
+            import subprocess
+            try:
+                payload, raw, rc = rep.run('jobserver', 'script_batch', [line], release=False, timeout=40)
+            except subprocess.TimeoutExpired:
+                subprocess.run(['pkill', '-9', '-f', 'verif_replay::script_batch'], stdout=subprocess.DEVNULL, stderr=subprocess.DEVNULL)
+                return True, 'scenario `%s` does not finish within 40 s natively (after the build)' % line
+            return False, 'scenario `%s` finishes natively: %s' % (line, payload[:1])
         outs = []
         for release in (False, True):
             payload, raw, rc = rep.run('jobserver', 'script_batch', [line], release=release, timeout=600)
